@@ -103,7 +103,7 @@ PROPS["C04"] = {
     "props_modules": ["C04", "C04Clip"],
     "corr_n": (20000, 400000),
     "search_n": (20000, 400000),
-    "technique": "Lean 4 theorems over definitions translated from the Rust source on every run (line/line uniqueness, curve/line soundness and conditional completeness) + XQ/Float correspondence + search",
+    "technique": "Lean 4 theorems over definitions translated from the Rust source on every run (line/line uniqueness, curve/line soundness and conditional completeness, Liang-Barsky spec of the generated line_clip_to_bounds) + XQ/Float correspondence + search",
     "level_text": "line_intersects_line / line_intersects_ray / ray_intersects_ray: theorems that the generated definitions return the unique solution of the two line equations exactly when it lies in the "
                   "stated parameter ranges (non-zero divisor), and - with IEEE division modelled by XQ - return None for a zero divisor (parallel/collinear). curve_intersects_ray is translated whole "
                   "(loop included): it is proved equal to filterMap of a per-root function over the solver's roots; every hit has t in [0,1], is the curve point at t, and an unsnapped exact root lies on "
@@ -390,8 +390,8 @@ PROPS["C09"] = {
     "corr_n": (4000, 100000),
     "search_n": (4000, 80000),
     "technique": "Lean 4 theorems about the WHOLE nearest-point pipeline translated from the Rust source on every run (find_bezier_roots with count_x_axis_crossings, flat_enough, find_x_intercept, Newton, "
-                 "de_casteljau_n, derivative_n, subdivide_n; the candidate loop of nearest_t; nearest_point, distance_to, path_closest_point) and a literal hand model of distance_in_bezier_form built on the "
-                 "translated Z table; Mathlib calculus over R for the global minimum; bit-exact Float mirror of all of it against the real code; brute-force oracle on the real code",
+                 "de_casteljau_n, derivative_n, subdivide_n; the candidate loop of nearest_t; nearest_point, distance_to, path_closest_point; distance_in_bezier_form and polynomial_to_bezier too since session 4 - the former proved equal to the literal hand model "
+                 "the theorems were written for); Mathlib calculus over R for the global minimum; bit-exact Float mirror of all of it against the real code; brute-force oracle on the real code",
     "level_text": "polynomial_to_bezier (the library's conversion from coefficient form to the Bezier form find_bezier_roots works on; indexed assignment inside nested loops, generated, bit-exact op poly at N = 2..8): "
                   "C09Poly.quintic_/cubic_/quadratic_bezier_is_polynomial - de_casteljau_n t (polynomial_to_bezier c) = (t, sum c_i t^i) for every t and all coefficients, at the degrees the library uses. " "Since session 4 distance_in_bezier_form is GENERATED too (Gen.gen_distance_in_bezier_form; indexed compound assignment in the translator) and proved EQUAL to the literal hand model the theorems below "
                   "were written for (C09Gen.gen_eq_model, gen_dbf_explicit), so they are theorems about generated code; the driver runs nearest_t / path_closest_point with the generated Bezier form. " "Partial (one named numerical hypothesis). Proved for ALL cubics, query points and t, over any ordered field: quintic_identity - the six points the model of distance_in_bezier_form builds "
@@ -617,8 +617,9 @@ PROPS["C02"] = {
     "search_n": (3000, 60000),
     "extended_factor": 2,
     "technique": "Lean 4 theorems about curve_intersects_curve_clip_inner, join_subsections, curve_hull_length_sq, fast_bounding_box and clip translated WHOLE from curve_curve_clip.rs on every run "
-                 "(the function's recursion is open: its two calls to itself are a parameter, Model/CurveClip.lean ties the knot with a depth; overlapping_region and intersections_with_linear_section, "
-                 "which end in the external roots crate, are parameters) + bit-exact Float mirror of the whole recursion against the real function + independent crossing oracle on the real code",
+                 "(the function's recursion is open: its two calls to itself are a parameter, Model/CurveClip.lean ties the knot with a depth), and about overlapping_region, solve_curve_for_t_along_axis (t_for_point) and "
+                 "intersections_with_linear_section translated whole as well (only the two external root solvers of the roots crate remain parameters); end-to-end soundness theorem over all of them "
+                 "+ bit-exact Float mirror of the whole recursion and of each callee against the real functions (hooks H1, H3, H6) + independent crossing oracle on the real code",
     "level_text": "Partial. Proved for all pairs of cubics, all accuracies, all recursion depths and ANY pair of callee functions, over any ordered field (sqrt arbitrary): "
                   "(1) clip_never_loses: one clip step keeps every true intersection EXACTLY (C13 had a 1e-5 slack; snapping can only produce the ranges [0,0] and [1,1], which clip widens by 0.005); "
                   "(2) results_have_origin: every returned pair is the mid-parameter pair of two sections of [0,1] that passed the convergence test with overlapping boxes, or an overlap-shortcut answer, or a "
@@ -673,8 +674,9 @@ PROPS["C10"] = {
     "corr_n": (4000, 100000),
     "search_n": (600, 20000),
     "technique": "Lean 4 theorems over definitions translated from the Rust source on every run (offset_lms_sampling, offset, offset_scaling, the whole body of subdivide_offset, "
-                 "offset_by_scaling/moving, tangent_at_pos/normal_at_pos, to_unit_vector, characterize/features_for_cubic_bezier) + a fuel knot for the recursion "
-                 "+ bit-exact Float mirror of every translated piece against the public API + search on the real code for the numerical part",
+                 "offset_by_scaling/moving, tangent_at_pos/normal_at_pos, to_unit_vector, characterize/features_for_cubic_bezier; the fitter offset calls is the generated fit_curve_cubic of C08) "
+                 "+ a fuel knot for the recursion + bit-exact Float mirror of every translated piece, incl. every control point of the chains offset / offset_lms_sampling return, against the public API "
+                 "+ search on the real code for the numerical part",
     "level_text": "Partial. WITH THE GENERATED FITTER (Props/C10Fit.offset_generated / offset_lms_sampling_generated, using C08Kernel): the curves offset(curve, d0, d1) returns are a connected chain from the first to the last sample and "
                   "EVERY one of the 33..129 samples - points exactly on the parallel curve C(t) + n(t)*d(t) - is within 0.1 of the chain at a parameter in [0,1], for every curve, feature class and offsets, "
                   "provided no three consecutive samples coincide; nothing in the fitting stage is abstract any more, and the driver compares EVERY CONTROL POINT of every curve that offset / offset_lms_sampling return with the generated functions over the generated fitter, bit for bit. " "find_inflection_points_complete / _sound (Props/C10Inflect): in the canonical form the generated find_inflection_points returns EXACTLY the roots in [0,1] of a*t^2 + b*t - 1 (a = -3+x+y, b = 3-x) "
